@@ -373,10 +373,26 @@ var confirmMu sync.Mutex
 // accepted traces with one field of one event corrupted (an atom of a call goal or of an answer renamed) or with one
 // event dropped must be rejected by TLC. If a corrupted trace is accepted the binding is vacuous: infrastructure error.
 func (c *checkCtx) bindingSelfTest(module, cfg string, traces []*rtrace, max int) {
+	c.bindingSelfTestWith(module, cfg, traces, max, nil)
+}
+
+// bindingSelfTestWith: corrupt (optional) replaces the default corruption of an event line; it returns the corrupted line and
+// whether the line is suitable.
+func (c *checkCtx) bindingSelfTestWith(module, cfg string, traces []*rtrace, max int, corrupt func(line string) (string, bool)) {
 	var corrupted []*rtrace
 	for _, t := range traces {
 		if len(corrupted) >= max {
 			break
+		}
+		if corrupt != nil {
+			for k := 1; k < len(t.lines); k++ {
+				if mod, ok := corrupt(string(t.lines[k])); ok {
+					bad := append(append(append([][]byte{}, t.lines[:k]...), []byte(mod)), t.lines[k+1:]...)
+					corrupted = append(corrupted, &rtrace{cs: t.cs, input: t.input, lines: bad})
+					break
+				}
+			}
+			continue
 		}
 		short := len(t.lines) < 4 // one record per trace (init line + record): only a field can be corrupted
 		if short && (len(t.lines) != 2 || !strings.Contains(string(t.lines[1]), `["a","`)) {
